@@ -375,15 +375,23 @@ def check_response_api(W, rec, rng):
                 resp.set_cookie("k", "three", domain=dom, path="/")
             elif rq.path == "/delete":
                 resp.delete_cookie("k", domain=dom, path="/")
+            elif rq.path == "/rotate":
+                # the usual session rotation: the old cookie is deleted and a new one set, in one response, in that order
+                resp.delete_cookie("k", domain=dom, path="/")
+                resp.set_cookie("k", "rotated", domain=dom, path="/")
+            elif rq.path == "/set-then-drop":
+                resp.set_cookie("k", "short-lived", domain=dom, path="/")
+                resp.delete_cookie("k", domain=dom, path="/")
             return resp(environ, start_response)
 
         c = Client(app)
-        for p_ in ("/set", "/look1", "/replace", "/look2", "/delete", "/look3"):
+        for p_ in ("/set", "/look1", "/replace", "/look2", "/delete", "/look3", "/rotate", "/look4", "/set-then-drop", "/look5", "/set", "/rotate", "/look6"):
             c.get(p_, base_url="http://example.com/").close()
         rec.case()
         rec.nontrivial(("response-api-jar", dom))
         rec.observe("jar_set_replace_delete_sequences")
-        exp = {"/look1": {"k": "one; two", "other": "stays"}, "/look2": {"k": "three", "other": "stays"}, "/look3": {"other": "stays"}}
+        exp = {"/look1": {"k": "one; two", "other": "stays"}, "/look2": {"k": "three", "other": "stays"}, "/look3": {"other": "stays"},
+               "/look4": {"k": "rotated", "other": "stays"}, "/look5": {"other": "stays"}, "/look6": {"k": "rotated", "other": "stays"}}
         got_ = {k_: seen.get(k_) for k_ in exp}
         if got_ != exp:
             rec.violation("C13/client-jar-set-replace-delete", f"domain={dom!r}: the server saw {got_!r}, expected {exp!r}", {"part": "response-api-jar", "domain": dom}, monitor="roundtrip")
@@ -455,6 +463,19 @@ def check_jar_reentrant_and_clock(W, rec):
                 rec.violation("C13/expires-not-now-plus-max-age", f"dump_cookie(max_age=60) called between {t0:.1f} and {t1:.1f} wrote Expires at {e} (a second call with the same arguments, {stamps[1][0] - stamps[0][0]:.1f}s after the first)",
                               {"part": "expires-follows-clock"}, monitor="attribute-model")
                 return
+    # ... for every max_age, the smallest ones included (a cookie to be dropped at once still says when)
+    for ma in (0, timedelta(0), timedelta(milliseconds=900), 1, timedelta(seconds=1, milliseconds=500), 3600):
+        secs = int(ma.total_seconds()) if isinstance(ma, timedelta) else ma
+        t0 = _time.time()
+        h = http.dump_cookie("k", "v", max_age=ma)
+        t1 = _time.time()
+        e = exp_of(h)
+        rec.case()
+        rec.nontrivial(("expires-from-max-age", repr(ma)))
+        rec.observe("expires_derived_from_small_max_ages")
+        if f"Max-Age={secs}" not in h.split("; ") or e is None or not (int(t0) + secs - 1 <= e <= int(t1) + secs + 1):
+            rec.violation("C13/expires-not-now-plus-max-age", f"dump_cookie(max_age={ma!r}) wrote {h!r}: Max-Age={secs} and an Expires {secs}s from now are what was asked for", {"part": "expires-from-max-age", "max_age": repr(ma)}, monitor="attribute-model")
+            return
 
 
 def rand_value(rng):
